@@ -274,9 +274,30 @@ def main():
         # warm beartype's own bytecode once (keeps later runs fast)
         run(new_pkg(1), 'default')
 
-        for idx in W.cases('hist', limit):
-            rng = W.rng('hist', idx)
-            if rng.random() < .25:
+        # two-run histories every run starts with (lead worker): pairs of configurations that share a cache file by
+        # design although they differ in something, and pairs that must not share one
+        DIRECTED = [('default', 'viol-exc'), ('default', 'tower'), ('viol-warn', 'default'), ('strategy-O0', 'default'),
+                    ('default', 'strategy-O0'), ('p1-fL25-tF5-x557', 'p1-fL25-tF5-x0'), ('p1-fL25-tF5-x0', 'p1-fL25-tF5-x557'),
+                    ('p1-fL25-tL4-xO0', 'p1-fL25-tL4-x0'), ('no526', 'default'), ('func-first', 'default'), ('type-first', 'default'),
+                    ('off', 'default'), ('default', 'off'), ('strategy-On', 'viol-warn')]
+
+        def history_cases():
+            if W.replay_case is not None:
+                if W.replay_case.get('stream') == 'directed':
+                    i = int(W.replay_case['index'])
+                    yield 'directed', i, DIRECTED[i]
+                for idx in W.cases('hist', limit):
+                    yield 'hist', idx, None
+                return
+            if W.is_lead():
+                for i, pair in enumerate(DIRECTED):
+                    yield 'directed', i, pair
+            for idx in W.cases('hist', limit):
+                yield 'hist', idx, None
+
+        for stream, idx, preset in history_cases():
+            rng = W.rng(stream, idx)
+            if preset is None and rng.random() < .25:
                 # ---- concurrent imports inside one run -------------------------------------------------
                 nh, nu = rng.choice((1, 2, 4)), rng.choice((1, 2, 4))
                 hooked = f'hk{W.k}_{idx}'
@@ -337,12 +358,16 @@ def main():
 
             # ---- history of runs ---------------------------------------------------------------------------
             n = rng.choice((2, 2, 3, 3, 4, 5))
-            confs = [rng.choice(list(CONFIGS)) for _ in range(n)]
+            named = [c for c in CONFIGS if not (c.startswith('p') and '-f' in c)]
+            product = [c for c in CONFIGS if c.startswith('p') and '-f' in c]
+            confs = [rng.choice(named if rng.random() < .5 else product) for _ in range(n)]
             for i in range(1, n):
                 # a third of the time the next run uses another configuration of the same AST shape: those two share a
                 # cache file by design, so whatever else distinguishes them must not have shaped the bytecode
                 if rng.random() < .33:
                     same = [c for c in CONFIGS if AST_SHAPE[c] == AST_SHAPE[confs[i - 1]] and c != confs[i - 1] and c != 'off']
+                    if rng.random() < .6 and any(c in named for c in same):
+                        same = [c for c in same if c in named]
                     if same:
                         confs[i] = rng.choice(same)
                         continue
@@ -354,6 +379,10 @@ def main():
                     parts[j] = rng.choice([a for a in alts if a != parts[j]])
                     confs[i] = '-'.join(parts)
             edits = [rng.random() < .25 for _ in range(n)]
+            if preset is not None:
+                confs, n = list(preset), len(preset)
+                edits = [False] * n
+                W.count('directed_histories')
             version = 1
             pkg = new_pkg(version)
             hist = []
@@ -385,12 +414,12 @@ def main():
                     else:
                         key = 'stale-or-wrong-cache'
                     W.violation(key, f'run {step} under {cn!r} (source v{version}) behaves {got} but the same configuration on an empty cache '
-                                     f'behaves {want}; earlier runs: {hist[:-1]}', 'hist', idx, wit)
+                                     f'behaves {want}; earlier runs: {hist[:-1]}', stream, idx, wit)
                     break
                 for fn, marked, transformed in scan_pycs(pyc_dir, src_dir, pkg):
                     W.count('pyc_files_decoded')
                     if transformed is not None and marked != transformed:
-                        W.violation('pyc-marker-mismatch', f'{fn}: marked={marked} but contains the transformation={transformed}', 'hist', idx, wit)
+                        W.violation('pyc-marker-mismatch', f'{fn}: marked={marked} but contains the transformation={transformed}', stream, idx, wit)
                         break
             shutil.rmtree(os.path.join(src_dir, pkg), ignore_errors=True)
             shutil.rmtree(os.path.join(pyc_dir, os.path.join(src_dir, pkg).lstrip(os.sep)), ignore_errors=True)
